@@ -8,6 +8,7 @@ CONSTANTS
   CfgPool = "basic"
   ListPool = "full"
   AccNs = {"", "a", "m", "n"}
+  LawDev = {}
   AccMembers <- AccMembersFwd
-INVARIANTS InvNamespaceOnly InvConfigOnlyDefault InvShowHideComplement InvBuiltin Emit
+INVARIANTS InvNamespaceOnly InvConfigOnlyDefault InvShowHideComplement InvFilterExact InvBuiltin Emit
 CHECK_DEADLOCK FALSE
